@@ -3,10 +3,13 @@ import concurrent.futures, os
 from . import common as C
 
 
-def run_session(ctx, scripts, shards=None, timeout=1800):
-    """scripts: list of list-of-lines. Returns list of (impl_lines, model_lines)."""
+def run_session(ctx, scripts, shards=None, timeout=None):
+    """scripts: list of list-of-lines. Returns list of (impl_lines, model_lines). Scripts the time budget did not reach
+    come back as ["<no output>"] on both sides."""
+    if timeout is None:
+        timeout = 150 if ctx.quick() else 2400
     if shards is None:
-        shards = 1 if ctx.quick() and len(scripts) < 400 else min(12, max(1, len(scripts) // 100))
+        shards = min(12, max(1, len(scripts) // 40))
     if shards <= 1:
         impl, model = C.run_cases(ctx, "session", scripts, timeout=timeout)
         return list(zip(impl, model))
